@@ -12,7 +12,19 @@ wb (dict; every key optional except "sheets"):
   "codepage": 1200 | other | None       CODEPAGE record (0x0042); None omits it
   "formats": {ifmt: "format string"}    FORMAT records (0x041E)
   "xfs": [ifmt, ...]                    one XF record (0x00E0) each; a cell's "xf" is an index in this list
-  "sst": [str | [utf16 units], ...]     SST (0x00FC) + CONTINUE (0x003C); see opts["sst_cut"]
+  "sst": [str | [utf16 units] | dict, ...]   SST (0x00FC) + CONTINUE (0x003C); see opts["sst_cut"].  A dict entry is an
+                                        XLUnicodeRichExtendedString with an explicit physical layout (all keys but
+                                        "s" / "units" optional; the logical string is always the units alone):
+                                          {"s": str | "units": [...], "wide": bool | None (packing of the first segment),
+                                           "runs": [(ich, ifnt), ...]  fRichSt + rgRun (4 bytes per FormatRun),
+                                           "ext": bytes                fExtSt + ExtRst (see phonetic_ext),
+                                           "cut_before": bool          the string starts a new CONTINUE record,
+                                           "cuts": [(ich, wide | None), ...]  CONTINUE cuts inside the characters, before
+                                                       character ich (0 <= ich < cch, non-decreasing; a repeat makes a
+                                                       CONTINUE holding only its flag byte): each starts with a fresh flag byte,
+                                           "tail_cuts": [off, ...]     CONTINUE cuts inside rgRun ++ ExtRst, before byte off
+                                                       (0 <= off < length, non-decreasing; a repeat makes an empty CONTINUE):
+                                                       NO flag byte there ([MS-XLS] 2.5.293 / CONTINUE)}
   "externsheet": [(isupbook, itab_first, itab_last), ...]   SUPBOOK (internal) + EXTERNSHEET (0x0017)
   "names": [(name, rgce bytes)]         LBL records (0x0018), workbook scope
   "filepass": bytes | None              FILEPASS record body (0x002F) right after BOF
@@ -43,12 +55,16 @@ cell (dict) — "r", "c" (first column for mulrk), "xf" (default 0) plus:
   {"k": "blank"}                                    BLANK   (0x0201)
   {"k": "raw", "typ": t, "body": bytes}             any record, verbatim
 opts (dict): "cfb": kwargs for cfb_wrap (version, shuffle, …)   "stream_name": "Workbook" (default) | "Book"
-             "sst_cut": None | int (max SST/CONTINUE body, >= 16; cuts fall between strings or inside characters)
+             "sst_cut": None | int (max SST/CONTINUE body, >= 16; cuts fall between strings or inside characters;
+                        with dict entries the limit also forces cuts inside rgRun / ExtRst)
+             "sst_stats": dict filled with the number of cuts of each kind the SST writer made
+                        (between / chars / runs / ext / empty-continue / records), dict entries only
              "pad_to": minimum stream length (zero padding after the last EOF; >= 4096 keeps it out of the mini stream)
 
 Helpers: rec(typ, body), rk_int(v, x100=False), rk_float(hi30, x100=False), rk_forms_of(bits) (every RK
 word that encodes the double), f64_bits(x), bits_f64(b), units_of(str), xl_unicode(units, wide),
-ERR_CODES, cell_records(cell) -> [(typ, body)], sheet_stream(sheet) -> bytes.
+ERR_CODES, cell_records(cell) -> [(typ, body)], sheet_stream(sheet) -> bytes, phonetic_ext(units) -> ExtRst bytes,
+sst_records(strings, cut, rng, stats) -> bytes.
 """
 import struct
 from fractions import Fraction
@@ -269,12 +285,88 @@ def sheet_stream(sheet):
     return out + rec(0x000A)
 
 # ------------------------------------------------------------------ SST
-def sst_records(strings, cut=None, rng=None):
+def phonetic_ext(units, ifnt=0, flags=0x0037, runs=((0, 0, 0),)):
+    """ExtRst ([MS-XLS] 2.5.87) carrying the phonetic string `units`: reserved = 1, cb, Phs (ifnt,
+    flags), RPHSSub (crun, cch, LPWideString), rgphruns (ichFirst, ichMom, cchMom each)"""
+    units = _units(units)
+    sub = struct.pack("<HH", len(runs), len(units)) + struct.pack("<H", len(units))
+    sub += b"".join(struct.pack("<H", u) for u in units)
+    body = struct.pack("<HH", ifnt, flags) + sub + b"".join(struct.pack("<HHH", *r) for r in runs)
+    return struct.pack("<HH", 1, len(body)) + body
+
+def _sst_records_ex(strings, lim, rng, stats):
+    """SST writer with explicit physical layouts (dict entries, see the module docstring)"""
+    st = stats if stats is not None else {}
+    def bump(k):
+        st[k] = st.get(k, 0) + 1
+    frags = [bytearray(struct.pack("<II", len(strings), len(strings)))]
+    def new_frag(kind):
+        frags.append(bytearray())
+        bump(kind)
+    for e in strings:
+        if not isinstance(e, dict):
+            e = {"units": _units(e), "wide": None if rng is None else (True if rng.random() < 0.5 else None)}
+        units = _units(e["s"] if "s" in e else e["units"])
+        n = len(units)
+        runs, ext = e.get("runs"), e.get("ext")
+        cuts = sorted(((int(p), w) for p, w in e.get("cuts", [])), key=lambda c: c[0])
+        assert all(0 <= p < n for p, _ in cuts), "a cut inside the characters must leave a character after it"
+        tail = b"".join(struct.pack("<HH", a, b) for a, b in (runs or [])) + bytes(ext or b"")
+        nruns = 4 * len(runs or [])
+        tcuts = sorted(int(t) for t in e.get("tail_cuts", []))
+        assert all(0 <= t < len(tail) for t in tcuts), "a cut inside rgRun/ExtRst must leave a byte after it"
+        # packing of the segment that starts at character a
+        stops = sorted(set([p for p, _ in cuts] + [n]))
+        def seg_wide(a, w):
+            b = min([x for x in stops if x > a] or [n])
+            return bool(w) or any(u > 255 for u in units[a:b])
+        wide = seg_wide(0, e.get("wide")) if n else bool(e.get("wide"))
+        hdr = struct.pack("<HB", n, (1 if wide else 0) | (4 if ext is not None else 0) | (8 if runs is not None else 0))
+        if runs is not None:
+            hdr += struct.pack("<H", len(runs))
+        if ext is not None:
+            hdr += struct.pack("<I", len(ext))
+        if e.get("cut_before") or len(frags[-1]) + len(hdr) + ((2 if wide else 1) if n else 0) > lim:
+            new_frag("between")
+        frags[-1] += hdr
+        ci = 0
+        for i in range(n):
+            while ci < len(cuts) and cuts[ci][0] == i:            # explicit cut(s) before character i
+                if ci > 0 and cuts[ci - 1][0] == i:
+                    bump("flag-only-continue")
+                new_frag("chars")
+                if i > 0 and 0xD800 <= units[i - 1] < 0xDC00 and 0xDC00 <= units[i] < 0xE000:
+                    bump("chars-inside-pair")
+                wide = seg_wide(i, cuts[ci][1])
+                frags[-1].append(1 if wide else 0)
+                ci += 1
+            if len(frags[-1]) + (2 if wide else 1) > lim:          # forced by the record limit
+                new_frag("chars")
+                frags[-1].append(1 if wide else 0)
+            frags[-1] += struct.pack("<H", units[i]) if wide else bytes([units[i]])
+        ti = 0
+        for j in range(len(tail)):
+            while ti < len(tcuts) and tcuts[ti] == j:
+                if ti > 0 and tcuts[ti - 1] == j:
+                    bump("empty-continue")
+                new_frag("runs" if j < nruns else "ext")
+                ti += 1
+            if len(frags[-1]) + 1 > lim:
+                new_frag("runs" if j < nruns else "ext")
+            frags[-1].append(tail[j])
+    st["records"] = st.get("records", 0) + len(frags)
+    assert all(len(f) <= 0xFFFF for f in frags)
+    return rec(0x00FC, bytes(frags[0])) + b"".join(rec(0x003C, bytes(f)) for f in frags[1:])
+
+def sst_records(strings, cut=None, rng=None, stats=None):
     """SST + CONTINUE records.  cut = maximum record body (default 8224).  A cut inside the
     characters of a string restarts with a one-byte fHighByte flag (chosen per fragment:
-    compressed when every remaining unit is < 256 and rng says so)."""
+    compressed when every remaining unit is < 256 and rng says so).  Entries given as dicts carry
+    an explicit layout (rich runs, ExtRst, cuts anywhere); plain entries are written as before."""
     lim = cut or MAXREC
     assert lim >= 16
+    if any(isinstance(e, dict) for e in strings):
+        return _sst_records_ex(strings, lim, rng, stats)
     frags = [bytearray(struct.pack("<II", len(strings), len(strings)))]
     for s in strings:
         units = _units(s)
@@ -327,7 +419,7 @@ def workbook_stream(wb, opts=None, rng=None):
         body += bytes([1 if wide else 0]) + (b"".join(struct.pack("<H", x) for x in u) if wide else bytes(u))
         post += rec(0x0018, body + bytes(rgce))
     if "sst" in wb:
-        post += sst_records(wb["sst"], opts.get("sst_cut"), rng)
+        post += sst_records(wb["sst"], opts.get("sst_cut"), rng, opts.get("sst_stats"))
     post += b"".join(rec(t, b) for t, b in wb.get("globals_extra", []))
     post += rec(0x000A)
     subs = [sheet_stream(s) for s in wb["sheets"]]
